@@ -17,7 +17,7 @@ def tlc_judge(module, cfg, env, what, timeout=3000, workers=1):
     res = run_tlc(module, cfg, workers=workers, timeout=timeout, env_extra=env, java_opts=JOPTS)
     out = res["out"]
     if "Model checking completed" not in out or re.search(r"^Error:", out, flags=re.M):
-        raise ToolError("TLC judge '%s' did not run cleanly:\n%s" % (what, "\n".join(out.splitlines()[-30:])))
+        raise ToolError("TLC judge '%s' did not run cleanly:\n%s" % (what, "\n".join(l[:300] for l in out.splitlines()[-30:] if not l.startswith('"EXPECT'))))
     return res
 
 
@@ -948,3 +948,285 @@ def c13(rep, tier, seed, wd):
 
 
 CHECKS.update({"C08": ("model_checking", c08), "C13": ("model_checking", c13)})
+
+
+# --------------------------------------------------------------------------- builder: C11 / C03 / C12
+def builder_run(tier, wd):
+    """model-check StunBuilder, dump its LTS, walk every operation sequence on the real builder"""
+    mc = run_tlc("StunBuilder.tla", "StunBuilder_mc.cfg", workers=4, timeout=1800)
+    tlc_ok(mc, "StunBuilder")
+    ltsp = os.path.join(wd, "builder.lts")
+    lres = run_tlc("StunBuilder.tla", "StunBuilder_lts.cfg", workers=1, timeout=1800, out_path=ltsp)
+    # out_path filtering keeps non-EDGE lines in lres["out"]; the adapter reads the raw file (EDGE + KINDS lines)
+    tlc_ok(lres, "StunBuilder LTS")
+    runs = []
+    for depth, alpha in ([(4, "full"), (6, "reduced")] if tier == "quick" else [(5, "full"), (7, "reduced")]):
+        op = os.path.join(wd, "builder_%s.out" % alpha)
+        run_harness(["builder", ltsp, op, str(depth), alpha], timeout=3000)
+        recs = read_ndjson(op)
+        os.remove(op)
+        runs.append((depth, alpha, recs))
+    os.remove(ltsp)
+    return mc, lres, runs
+
+
+def builder_check(pid, rep, tier, seed, wd):
+    mc, lres, runs = builder_run(tier, wd)
+    nodes = 0
+    states = {}
+    for depth, alpha, recs in runs:
+        for r in recs:
+            if "mismatch" in r:
+                m = r["mismatch"]
+                owners = {"C11": ["C11"], "C12": ["C12"], "C03": ["C03", "C11"]}[m["prop"]]
+                if pid in owners:
+                    rep.violation("builder ops %s: %s" % (" ".join(m["path"]), m["what"]), {"kind": "builder_path", "path": m["path"], "alphabet": alpha})
+                else:
+                    for p in owners:
+                        rep.note_foreign(p)
+            elif "summary" in r:
+                nodes += r["summary"]["nodes"]
+            elif "state" in r:
+                states[r["state"]] = r
+    # every distinct builder state: serialised bytes through the parser specification (structural C03, last sentence of C11)
+    key = {"kind": "short", "password": list(b"builder-key")}
+    cases = [{"bytes": st["bytes"], "creds": [key], "src": "builder state [%s]" % k, "types": st["types"], "lookup": [6, 8, 28, 36, 32513, 32802, 32808]}
+             for k, st in sorted(states.items())]
+    triples = run_pipeline(cases, wd, "builder", trace=False)
+    for case, obs, exp, hang in triples:
+        must, asis = compare(case, obs, exp, hang)
+        extra = []
+        if exp["parse"]["ok"] and obs and obs["parse"].get("ok"):
+            got_types = [e["type"] for e in obs["acc"]["exposed"]] if isinstance(obs["acc"].get("exposed"), list) else None
+            if got_types != case["types"]:
+                extra.append((["C03", "C11"], "parsed back: exposed types %s, builder holds %s" % (got_types, case["types"])))
+            ea = exp["acc"]
+            if (ea["class"], ea["method"], ea["tid"]) != ("request", 1, [9, 8, 7, 6, 5, 4, 3, 2, 1, 0, 11, 12]):
+                extra.append((["C03"], "header of the serialised message: %s %s %s" % (ea["class"], ea["method"], ea["tid"])))
+            integ = obs["acc"].get("integrity", [{}])[0]
+            if (8 in case["types"] or 28 in case["types"]) and not integ.get("ok"):
+                extra.append((["C11", "C03", "C04"], "integrity added by the builder does not validate: %s" % json.dumps(integ)))
+        elif not exp["parse"]["ok"]:
+            extra.append((["C03", "C11"], "the specification's parser rejects what the builder serialised: %s" % json.dumps(exp["parse"])))
+        for pids, what in must + extra:
+            if pid in pids or (pid in ("C03", "C11") and ("C02" in pids or "C10" in pids)):
+                rep.violation("%s: %s" % (case["src"], what), {"kind": "codec_case", "case": slim(case)})
+            else:
+                for p in pids:
+                    rep.note_foreign(p)
+    return mc, lres, nodes, states, cases
+
+
+def c11(rep, tier, seed, wd):
+    mc, lres, nodes, states, cases = builder_check("C11", rep, tier, seed, wd)
+    rep.add_cov(states=mc["distinct"], transitions=mc["generated"], traces_validated_against_impl=nodes,
+                builder_states_serialised_and_parsed=len(states), lts_edges=lres["generated"] - 1,
+                samples=[{"ops": ["add_attribute(A)", "add_integrity(MI)", "add_raw_attribute(R)", "add_integrity(MI256)", "add_fingerprint(FP)", "add_fingerprint(FP)"]},
+                         {"state": cases[-1]["src"], "bytes": cases[-1]["bytes"]}],
+                rule="TLC checks Ordered, RefusalRule (refused exactly when the type is present / the message is sealed; refused operations leave the list unchanged) and Composition (the parser specification accepts Serialize(b) and exposes exactly b's attributes) on every reachable builder state (4 ordinary kinds x 8 sealing tails). EVERY operation sequence over the full alphabet (typed/raw add of 4 kinds, forbidden adds, SHA-1, SHA-256, fingerprint, into_owned, clone) to depth 4 (thorough 5) and over a reduced alphabet to depth 6 (thorough 7) is executed on the real MessageBuilder (prefix-shared clones); after every operation the result, has_attribute for every kind, has_any_attribute, byte_len and 'refused => bytes unchanged' are matched with the LTS; every distinct state's bytes are parsed and validated (integrity via the oracle, fingerprint via the TLA+ CRC)")
+    rep.assumptions += ["error variants of refused operations are compared as-is (all equal on this tree)", "bounded: 4 ordinary attribute kinds"]
+
+
+def c12(rep, tier, seed, wd):
+    mc, lres, nodes, states, cases = builder_check("C12", rep, tier, seed, wd)
+    acases, stats, per_type = attr_check("C12", rep, tier, seed, wd)
+    # random builders (19 types, all sealings): build/write_into/into_owned/clone agree - adapter mode genpaths
+    gp = os.path.join(wd, "genpaths.ndjson")
+    run_harness(["genpaths", str(400 if tier == "quick" else 5000), str(seed), gp])
+    recs = read_ndjson(gp)
+    for r in recs:
+        for p in r.get("problems", []):
+            rep.violation("random builder %d: %s" % (r["id"], p), {"kind": "genpaths", "id": r["id"], "seed": seed})
+    os.remove(gp)
+    rep.add_cov(states=mc["distinct"], transitions=mc["generated"], traces_validated_against_impl=nodes + len(recs),
+                builder_states_all_destination_sizes=len(states), attribute_values=len(acases), random_builders=len(recs),
+                samples=[{"state": cases[-1]["src"], "len": len(cases[-1]["bytes"])}, acases[3]],
+                rule="for every distinct builder state reached by any operation sequence (see C11): build(), write_into(exact), write_into(len+16 with sentinel bytes), every shorter destination 0..len-1 (TooSmall{len, n}, buffer untouched), clone(), into_owned(), into_owned().clone() give the same bytes, and all paths to the same abstract state (typed or raw attributes, owned or borrowed) serialise identically; per attribute: write_into vs to_raw().to_bytes() vs the specification's canonical wire form (padded length, declared length = value length, zero padding, sentinel beyond the length intact, one-byte-short destination refused untouched) for the C08 value sets incl. raw attributes of every length; random builders over all 19 types and sealings")
+
+
+def c03(rep, tier, seed, wd):
+    mc, lres, nodes, states, cases = builder_check("C03", rep, tier, seed, wd)
+    n = 1200 if tier == "quick" else 15000
+    gm = gen_messages(n, seed + 7, wd, maxattrs=7)
+    gcs = [{"bytes": g["bytes"], "creds": g["creds"][:1], "src": "generated message %d" % g["id"], "gen": g["gen"]} for g in gm if not g["gen"]["by_ext"]]
+    triples = run_pipeline([{k: v for k, v in c.items()} for c in gcs], wd, "c03", trace=False)
+    ntyped = 0
+    seals = {}
+    for case, obs, exp, hang in triples:
+        g = case["gen"]
+        seals[g["seal"]] = seals.get(g["seal"], 0) + 1
+        must, asis = compare(case, obs, exp, hang)
+        extra = []
+        b = case["bytes"]
+        if len(b) % 4 != 0 or g["byte_len"] != len(b) or (b[2] * 256 + b[3]) != len(b) - 20:
+            extra.append((["C03"], "length: %d bytes, byte_len() %s, header length field %d" % (len(b), g["byte_len"], b[2] * 256 + b[3])))
+        if not exp["parse"]["ok"]:
+            extra.append((["C03"], "the specification's parser rejects what the builder serialised: %s" % json.dumps(exp["parse"])))
+        elif obs and obs["parse"].get("ok"):
+            ea, oa = exp["acc"], obs["acc"]
+            if (oa.get("class"), oa.get("method"), oa.get("tid")) != (g["class"], g["method"], g["tid"]):
+                extra.append((["C03", "C19"], "header read back as %s/%s/%s, built with %s/%s/%s" % (oa.get("class"), oa.get("method"), oa.get("tid"), g["class"], g["method"], g["tid"])))
+            want = [a["d"] for a in g["attrs"] if not a["as_raw"]] + [a["d"] for a in g["attrs"] if a["as_raw"]]
+            want_types = [d["t"] for d in want] + ([8] if g["seal"] & 1 else []) + ([28] if g["seal"] & 2 else []) + ([32808] if g["seal"] & 4 else [])
+            typed = oa.get("typed") if isinstance(oa.get("typed"), list) else []
+            got_types = [t["type"] for t in typed]
+            if got_types != want_types:
+                extra.append((["C03"], "attribute order/types read back %s, built %s" % (got_types, want_types)))
+            else:
+                for d, t in zip(want, typed):
+                    ntyped += 1
+                    if d["t"] in BUILTIN:
+                        if not t.get("ok"):
+                            extra.append((["C03", "C08"], "attribute %d does not decode after the round trip: %s" % (d["t"], json.dumps(t)[:200])))
+                            continue
+                        for k in FIELD_KEYS:
+                            if k in d and t.get(k) != d[k]:
+                                extra.append((["C03", "C08"] + (["C13"] if d["t"] == 32 else []), "attribute %d field %s read back %s, built from %s" % (d["t"], k, str(t.get(k))[:100], str(d[k])[:100])))
+                    else:
+                        ex = [e for e in oa["exposed"] if e["type"] == d["t"]]
+                        if not ex or ex[0]["value"] != d["raw"]:
+                            extra.append((["C03"], "raw attribute %d value differs after the round trip" % d["t"]))
+            integ = (oa.get("integrity") or [{}])[0]
+            if g["seal"] & 3 and not (integ.get("ok") and integ.get("alg") == ("sha256" if g["seal"] & 2 else "sha1")):
+                extra.append((["C03", "C04"], "integrity added by the builder: %s" % json.dumps(integ)))
+        for pids, what in must + extra:
+            if "C03" in pids or "C02" in pids or "C10" in pids:
+                rep.violation("%s: %s" % (case["src"], what), {"kind": "codec_case", "case": slim(case)})
+            else:
+                for p in pids:
+                    rep.note_foreign(p)
+    if len(seals) < 8:
+        raise ToolError("vacuity in C03: sealing combinations seen %s" % seals)
+    rep.add_cov(states=mc["distinct"], transitions=mc["generated"], traces_validated_against_impl=nodes + len(gcs),
+                builder_states_serialised_and_parsed=len(states), generated_messages=len(gcs), typed_values_compared=ntyped,
+                sealing_combinations={str(k): v for k, v in sorted(seals.items())},
+                samples=[{"gen": gcs[0]["gen"], "bytes_len": len(gcs[0]["bytes"])}],
+                rule="structural part: TLC checks Composition (parser spec accepts Serialize(b), exposes exactly b's attributes, length % 4 = 0, header length = len - 20) on every reachable builder state, and every distinct state reached on the real builder by all operation sequences (see C11) is parsed back; value part: random builders over 4 classes x boundary/random methods 0..0xfff x boundary/random 96-bit ids x up to 7 attributes drawn from all 19 typed kinds (boundary lengths 0, max, max-1, random; multi-byte UTF-8) and raw unknown types of length 0..763, typed or raw insertion, all 8 sealing combinations; parsed back by the implementation: class/method/id, attribute order, every typed field (and raw value), integrity algorithm and validity; the same bytes must be accepted by the TLA+ parser specification")
+
+
+CHECKS.update({"C11": ("model_checking", c11), "C12": ("model_checking", c12), "C03": ("model_checking", c03)})
+
+
+# --------------------------------------------------------------------------- C01
+def boundary_cases(rng):
+    out = []
+    hdr = lambda n, cls=0x0001: [cls >> 8, cls & 255, n >> 8, n & 255, 0x21, 0x12, 0xa4, 0x42] + [rng.randrange(256) for _ in range(12)]
+    # tiny buffers
+    for n in list(range(0, 25)):
+        out.append({"bytes": [0] * n, "src": "%d zero bytes" % n})
+        out.append({"bytes": [255] * n, "src": "%d 0xff bytes" % n})
+        out.append({"bytes": (hdr(0) + [0, 6, 0, 0])[:n], "src": "%d-byte prefix of a small message" % n})
+    # integrity attributes at offsets around the 16-bit boundary (validate_integrity arithmetic)
+    for off in (65508, 65512, 65516, 65528):
+        vlen = off - 24
+        for ity, ilen in ((8, 20), (28, 32), (28, 16)):
+            total = off + 4 + ilen
+            if total - 20 > 65535:
+                continue
+            body = [0x7f, 0x02, vlen >> 8, vlen & 255] + [7] * vlen + [0, ity, 0, ilen] + [rng.randrange(256) for _ in range(ilen)]
+            out.append({"bytes": hdr(total - 20) + body, "src": "integrity attribute (type %d) at offset %d" % (ity, off)})
+    # attribute lengths 65531..65535 declared in buffers of various sizes
+    for alen in (65531, 65532, 65533, 65534, 65535):
+        for have in (0, 4, 100):
+            body = [0x80, 0x22, alen >> 8, alen & 255] + [65] * have
+            out.append({"bytes": hdr(len(body)) + body, "src": "attribute length %d declared, %d bytes present" % (alen, have)})
+        body = [0x80, 0x22, alen >> 8, alen & 255] + [65] * alen + [0] * ((4 - alen % 4) % 4)
+        if len(body) <= 65535:
+            out.append({"bytes": hdr(len(body)) + body, "src": "attribute of %d bytes, complete" % alen})
+    # declared lengths at the top of the range / buffers beyond 64 KiB
+    for total in (65532, 65536, 65552, 65556, 70000):
+        # a handful of large attributes filling the buffer (thousands of tiny ones would only stress the judge)
+        body = []
+        left = total - 20
+        while left > 0:
+            v = min(left - 4, 16380)
+            body += [0xff, 0x03, v >> 8, v & 255] + [3] * v
+            left -= 4 + v
+        out.append({"bytes": hdr(min(total - 20, 65535)) + body, "src": "%d bytes, large attributes" % total})
+    out.append({"bytes": hdr(2000) + [0] * 2000, "src": "500 empty attributes of type 0"})
+    # malformed values of every built-in type inside otherwise well-formed messages, every class (formatting, policing)
+    for cls in (0x0001, 0x0011, 0x0101, 0x0111):
+        body = []
+        for ty in BUILTIN:
+            if ty in (8, 28, 32808):
+                continue
+            v = [0xff, 0xfe, 0xfd][: rng.choice([1, 2, 3])]
+            body += [ty >> 8, ty & 255, 0, len(v)] + v + [0] * ((4 - len(v) % 4) % 4)
+        out.append({"bytes": hdr(len(body), cls) + body, "src": "malformed values of every built-in type, class bits %#06x" % cls})
+        body2 = [0, 8, 0, 3, 1, 2, 3, 0, 0x80, 0x28, 0, 0]
+        out.append({"bytes": hdr(len(body2), cls) + body2, "src": "integrity/fingerprint of illegal lengths, class bits %#06x" % cls})
+    return out
+
+
+def c01(rep, tier, seed, wd):
+    rng = random.Random(seed)
+    cfgs = ["bodies2", "tails4", "headers"] if tier == "quick" else ["bodies", "tails5", "headers"]
+    cases, st, tr = enum_cases(cfgs, wd)
+    letter_types = [6, 6, 32802, 32802, 32512, 65280, 8, 8, 28, 28, 28, 32808, 32808, 32808, 32808, 36, 32802, 65280, 6]
+    for c in cases:
+        c["types"] = [letter_types[x - 1] for x in c["as"]]
+    gm = gen_messages(300 if tier == "quick" else 5000, seed + 8, wd, maxattrs=5)
+    gcs = [{"bytes": g["bytes"], "creds": g["creds"], "src": "generated message %d" % g["id"], "types": [a["d"]["t"] for a in g["gen"]["attrs"]]} for g in gm]
+    muts = []
+    for g in gm:
+        for _ in range(3 if tier == "quick" else 10):
+            m = mutate(g["bytes"], rng)
+            if rng.random() < 0.4:
+                m = mutate(m, rng)
+            muts.append({"bytes": m, "creds": g["creds"][:2], "src": "mutant of generated message %d" % g["id"], "types": [a["d"]["t"] for a in g["gen"]["attrs"]]})
+    bnd = boundary_cases(rng) + huge_messages(rng, 5)
+    for c in bnd:
+        c["types"] = [6, 8, 32802]
+    short_cred = {"kind": "short", "password": list("pw".encode())}
+    long_cred = {"kind": "long", "user": list("us:er".encode()), "realm": list("ré".encode()), "password": []}
+    allc = cases + gcs + muts + bnd
+    for c in allc:
+        c.setdefault("creds", [short_cred, long_cred])
+        c["police"] = police_sets(c["types"], rng, 2)
+        c["lookup"] = ALPHA_TYPES
+    triples = run_pipeline(allc, wd, "c01", trace=True, chunk=1500)
+    npanic = 0
+    accepted = 0
+    for case, obs, exp, hang in triples:
+        if exp["parse"]["ok"]:
+            accepted += 1
+        if hang is not None or obs is None:
+            rep.violation("%s: no answer (hang or crash of the adapter) on a %d-byte buffer" % (case["src"], len(case["bytes"])), {"kind": "codec_case", "case": slim(case)})
+            continue
+        cls = exp.get("hdr", {}).get("class", "?")
+        pan = all_panics(obs)
+        for path, msg in pan:
+            npanic += 1
+            rep.violation("%s: panic at %s: %s [class=%s]" % (case["src"], path, msg, cls), {"kind": "codec_case", "case": slim(case)})
+        if obs.get("traced_same") is False and not pan:
+            rep.violation("%s: answers differ with a TRACE-level tracing subscriber installed" % case["src"], {"kind": "codec_case", "case": slim(case)})
+        must, asis = compare(case, obs, exp, hang)
+        for pids, what in must:
+            if "C01" not in pids:
+                for p in pids:
+                    rep.note_foreign(p)
+    # typed decoders and raw attribute paths on the C08 value sets (every length 0..800 etc.)
+    acases, stats, per_type = attr_check("C01", rep, tier, seed, wd)
+    rep.add_cov(evaluations=len(allc) + len(acases), distinct_nontrivial=distinct(allc) + len({(c["type"], bytes(c["value"])) for c in acases}),
+                accepted_messages_inspected=accepted, boundary_cases=len(bnd), enumerated=len(cases), generated=len(gcs), mutants=len(muts),
+                attribute_values=len(acases), panics_seen=npanic, max_buffer_len=max(len(c["bytes"]) for c in allc),
+                samples=[{"src": bnd[80]["src"], "len": len(bnd[80]["bytes"])}, {"src": muts[0]["src"], "bytes": muts[0]["bytes"][:60]}],
+                rule="every buffer produced by the other codec checks' generators (TLC-enumerated skeletons, builder-generated messages, byte mutants) plus a boundary set derived from the guards of the specification (lengths 0..24; integrity attributes at offsets 65508..65528; attribute lengths 65531..65535; totals 65532..70000; malformed values of every built-in type in every message class) is pushed through Message/MessageHeader/MessageType/RawAttribute::from_bytes and, when accepted, through iteration, lookups, typed extraction by all 19 decoders, validate_integrity with short- and long-term credentials, check_attribute_types with empty/full/random sets, Display and Debug - once without and once with a TRACE-level tracing subscriber - under catch_unwind and a 30 s watchdog, built with overflow checks; the 19 typed decoders additionally on every value length 0..800")
+    rep.assumptions += ["exploration: a panic on an input that no generator produced is not found; the specification contributes the boundary analysis and a verdict for every input (TLC evaluates every case without error)",
+                        "release-mode wrap-around is not observed (overflow checks are on)"]
+
+
+def all_panics(v, path=""):
+    out = []
+    if isinstance(v, dict):
+        if "panic" in v:
+            out.append((path, v["panic"]))
+        for k, x in v.items():
+            out += all_panics(x, path + "/" + str(k))
+    elif isinstance(v, list):
+        for i, x in enumerate(v):
+            out += all_panics(x, path + "/" + str(i))
+    return out
+
+
+CHECKS.update({"C01": ("exploration", c01)})
